@@ -268,6 +268,14 @@ func c15Ops() []c15Op {
 		}
 		return c15Result{value: "digest " + hx8(d)}
 	}))
+	bigImg := pegen.Build(pegen.Layout{PE32Plus: true, Lfanew: 0x80, Secs: []pegen.Sec{{RawSize: 8}, {RawSize: 13}}, Trailing: 70001, Big: true})
+	ops = append(ops, imgOp("authenticode.Parse + Hash (reader fault, 110 KB image: several chunks)", bigImg, func(p *authenticode.PECOFFBinary) c15Result {
+		d := p.Hash(crypto.SHA256)
+		if d == nil {
+			return c15Result{noSucc: true, err: errors.New("no digest")}
+		}
+		return c15Result{value: "digest " + hx8(d)}
+	}))
 	ops = append(ops, imgOp("authenticode.Parse + Verify (reader fault)", signed, func(p *authenticode.PECOFFBinary) c15Result {
 		ok, err := p.Verify(cert)
 		if err != nil {
